@@ -44,7 +44,11 @@ SPEC = {
              "random part: longer lists, explicit default payloads, empty / disjoint / interleaved / identical "
              "operands.  The traces are registered under the rank id of the FIRST operand ('K'); the second operand "
              "carries the same id, another id ('K0', 'k', 'K1') or no id at all (never set), in turn in the "
-             "systematic part and at random otherwise - the same totals are required.  "
+             "systematic part and at random otherwise - the same totals are required.  Every case is also executed "
+             "once more with ONE trace only registered in the collection (intersect_0 or intersect_1, alternating in the "
+             "systematic part, at random otherwise; the other trace does not exist), over one of the case's batching "
+             "modes (empty calls included), and that trace is fed to a LeaderFollower model of that operand alone: it "
+             "must report the number of elements its operand presented.  "
              "(ii) `lf`: real leader-follower intersections, leader trace fed to LeaderFollower. "
              "(iii) `swaps`: canonical tensors of 2..4 ranks, Compute.numSwaps at depth 0..2, radix 2..6 and "
              "infinity, latency 0..4, 7, 100 and 'N' (0 = the boundary: nothing is charged), compared with an "
@@ -63,6 +67,8 @@ SPEC = {
                              "isect_runs_second_operand_other_rank_id": 5000,
                              "isect_runs_second_operand_no_rank_id": 1500,
                              "numswaps_zero_latency_calls": 500,
+                             "isect_single_trace_runs": 4000, "isect_only_first_trace_runs": 1500,
+                             "isect_only_second_trace_runs": 1500,
                              "numswaps_default_payload_calls": 1500, "numswaps_default_payload_elements": 3000,
                              "numswaps_default_subfiber_calls": 100, "numswaps_N_default_payload_calls": 400},
                    "thorough": {"evaluations": 60000, "oracle_evals": 600000, "model_feeds": 400000,
@@ -71,6 +77,8 @@ SPEC = {
                                 "isect_runs_second_operand_other_rank_id": 50000,
                                 "isect_runs_second_operand_no_rank_id": 15000,
                                 "numswaps_zero_latency_calls": 2000,
+                                "isect_single_trace_runs": 40000, "isect_only_first_trace_runs": 15000,
+                                "isect_only_second_trace_runs": 15000,
                                 "numswaps_default_payload_calls": 10000, "numswaps_default_subfiber_calls": 2000,
                                 "numswaps_N_default_payload_calls": 3000}},
     "assumptions": [
@@ -81,6 +89,9 @@ SPEC = {
         "free - equal, different, or never set (the constructor's 'Unknown') - and takes no part in the totals.  For "
         "real leader-follower intersections both operands carry the same id (a follower in another rank needs "
         "Metrics.matchRanks to be traced at all; not driven)",
+        "which of the two operand traces are registered is the user's choice: both (all four models), or one only (the "
+        "leader-follower model of that operand alone; the two-trace models are not fed then) - an operand's trace rows "
+        "do not depend on whether the other operand's trace is collected",
         "multi-fiber batches are only fed when fiber boundaries are recognisable in the trace, i.e. under at least "
         "one outer traced loop rank with strictly increasing loop points (as in a real loop nest); without an "
         "outer rank only fiber-by-fiber feeding (and a single fiber in one shot) is judged",
@@ -165,6 +176,12 @@ def _sys_emp(k):
             "trail": (3 - two) if bits & 4 else 0}
 
 
+def _sys_solo(k):
+    """Single-trace collection of the k-th systematic case of a shard: which operand's trace is the only one
+    registered (a model of that operand alone) and over which of the case's batching modes."""
+    return {"side": k % 2, "mode": (k // 2) % 4}
+
+
 def _rand_emp(rng):
     r = rng.random()
     if r < 0.25:                                    # feed at the top of every iteration, drain at the end
@@ -184,7 +201,7 @@ def generate(rng, tier, shard, nshards, mon):
                 d = idx // nshards % 3
                 yield {"kind": "isect", "outer": _outer_for(1, d, idx), "fibers": [[_leaf(a), _leaf(b, 1)]],
                        "groups": [1], "emp": _sys_emp(idx // nshards), "brank": B_RANK_IDS_SYS[idx // nshards % 5],
-                       "sys": "one-fiber-n5"}
+                       "solo": _sys_solo(idx // nshards), "sys": "one-fiber-n5"}
             idx += 1
     mon.exhaustive["isect-one-fiber-subsets-n5"] = True
     # (b) two fibers
@@ -198,7 +215,7 @@ def generate(rng, tier, shard, nshards, mon):
                 yield {"kind": "isect", "outer": _outer_for(2, d, idx // 7),
                        "fibers": [[_leaf(p1[0]), _leaf(p1[1], 1)], [_leaf(p2[0], 2), _leaf(p2[1], 3)]],
                        "groups": [2], "emp": _sys_emp(idx // nshards), "brank": B_RANK_IDS_SYS[idx // nshards % 5],
-                       "sys": f"two-fibers-n{n2}"}
+                       "solo": _sys_solo(idx // nshards), "sys": f"two-fibers-n{n2}"}
             idx += 1
     mon.exhaustive[f"isect-two-fibers-subsets-n{n2}"] = True
     # (c) three fibers
@@ -213,7 +230,8 @@ def generate(rng, tier, shard, nshards, mon):
                     yield {"kind": "isect", "outer": _outer_for(3, d, idx // 5),
                            "fibers": [[_leaf(p[0], k), _leaf(p[1], k + 1)] for k, p in enumerate((p1, p2, p3))],
                            "groups": [[3], [1, 2], [2, 1]][idx % 3], "emp": _sys_emp(idx // nshards),
-                           "brank": B_RANK_IDS_SYS[idx // nshards % 5], "sys": f"three-fibers-n{n3}"}
+                           "brank": B_RANK_IDS_SYS[idx // nshards % 5], "solo": _sys_solo(idx // nshards),
+                           "sys": f"three-fibers-n{n3}"}
                 idx += 1
     mon.exhaustive[f"isect-three-fibers-subsets-n{n3}"] = True
     if not quick:
@@ -227,7 +245,8 @@ def generate(rng, tier, shard, nshards, mon):
                         yield {"kind": "isect", "outer": _outer_for(3, 1 + idx // nshards % 2, idx // 5),
                                "fibers": [[_leaf(p[0], k), _leaf(p[1], k + 1)] for k, p in enumerate((p1, p2, p3))],
                                "groups": [[3], [1, 2], [2, 1]][idx % 3], "emp": _sys_emp(idx // nshards),
-                               "brank": B_RANK_IDS_SYS[idx // nshards % 5], "sys": "three-fibers-n3"}
+                               "brank": B_RANK_IDS_SYS[idx // nshards % 5], "solo": _sys_solo(idx // nshards),
+                               "sys": "three-fibers-n3"}
                     idx += 1
         mon.exhaustive["isect-three-fibers-subsets-n3"] = True
     # (d) systematic numSwaps: all ordered triples of non-empty subsets of {0..2} x radix x latency
@@ -350,7 +369,8 @@ def _random_case(rng):
         n = rng.choice([1, 2, 2, 3, 3, 4, 5, 6])
         d = rng.choice([0, 1, 1, 1, 2, 2])
         return {"kind": "isect", "outer": _rand_outer(rng, n, d), "fibers": [_rand_pair(rng) for _ in range(n)],
-                "groups": _rand_groups(rng, n), "emp": _rand_emp(rng), "brank": rng.choice(B_RANK_IDS_RAND)}
+                "groups": _rand_groups(rng, n), "emp": _rand_emp(rng), "brank": rng.choice(B_RANK_IDS_RAND),
+                "solo": {"side": rng.randint(0, 1), "mode": rng.randint(0, 3)}}
     if r < 0.62:
         n = rng.choice([1, 2, 3])
         d = rng.choice([0, 1, 2])
@@ -492,8 +512,10 @@ def _outer_tree(points):
     return walk
 
 
-def _execute(case, groups, style="and", slots=None):
+def _execute(case, groups, style="and", slots=None, which=(0, 1)):
     """Really run the loop nest once, consuming the traces after each group of consecutive fibers.
+    which: the operands whose intersect_<l> trace is registered (and consumed); the chunk entry of an operand
+    whose trace is not registered is [].
     slots (len(groups) + 1 counts): additional consumptions at moments when nothing new has been traced -
     slots[i] times at the top of the iteration that starts group i (before its first `&`; for i = 0 that is
     before the traced rank has been iterated at all) and slots[-1] times after the loop nest has ended.
@@ -512,11 +534,11 @@ def _execute(case, groups, style="and", slots=None):
     chunks = []
 
     def consume():
-        chunks.append((Metrics.consumeTrace("K", "intersect_0"), Metrics.consumeTrace("K", "intersect_1")))
+        chunks.append(tuple(Metrics.consumeTrace("K", f"intersect_{l}") if l in which else [] for l in (0, 1)))
     Metrics.beginCollect()
     try:
-        Metrics.trace("K", "intersect_0", consumable=True)
-        Metrics.trace("K", "intersect_1", consumable=True)
+        for l in which:
+            Metrics.trace("K", f"intersect_{l}", consumable=True)
 
         def body(n):
             if slots is not None and n in starts:
@@ -739,9 +761,50 @@ def _run_isect(case, mon):
                 mon.check(total == want[name], f"{fam}:multi-fiber-batch{EMPTY if emp else ''}:total:no-leftover-row",
                           f"{detail}: model reports {total}, independent merge gives {want[name]}; no fiber of a batch "
                           f"leaves a leftover row before the batch's last fiber")
+    _run_solo(case, mon, want, ranks)
     if any(p["both"] for p in per):
         mon.nontrivial()
     mon.state(("isect", want["two-finger"], want["skip-ahead"], want["leader-follower-a"], want["leader-follower-b"], n))
+
+
+def _run_solo(case, mon, want, ranks):
+    """A model of ONE operand alone: only that operand's intersect_<l> trace is registered in the collection (the
+    other trace does not exist), the loop nest is really executed once more over one of the case's batching modes
+    and the consumed trace is fed to a fresh LeaderFollowerIntersector.  'The leader-follower model reports the
+    number of elements its operand presented' - whether or not anybody models the other operand."""
+    solo = case.get("solo")
+    if not solo:
+        return
+    side = int(solo.get("side", 0)) % 2
+    modes = _modes(case)
+    mode, groups, slots = modes[int(solo.get("mode", 0)) % len(modes)]
+    emp = slots is not None
+    name = "leader-follower-" + "ab"[side]
+    what = (f"only the intersect_{side} trace registered, {mode} {groups}"
+            + (f" with {slots} empty calls before/between/after the batches" if emp else "")
+            + f" over fibers {[(_presented(a), _presented(b)) for a, b in case['fibers']]} outer {case['outer']}{ranks}")
+    try:
+        chunks = _execute(case, groups, slots=slots, which=(side,))
+    except BaseException as e:      # noqa
+        mon.violation(f"and-under-metrics:single-trace-registered:raised:{type(e).__name__}",
+                      f"executing a & b under Metrics ({what}) raised {type(e).__name__}: {e}")
+        return
+    mon.count("isect_single_trace_runs")
+    mon.count("isect_only_second_trace_runs" if side else "isect_only_first_trace_runs")
+    if emp:
+        mon.check(len(chunks) == len(groups) + sum(slots) and all(_is_empty(c) for c in _slot_chunks(chunks, slots)),
+                  "consumeTrace:nothing-traced-since-last-call:not-empty",
+                  f"consuming the trace again when nothing was traced since the last consumption returned rows: "
+                  f"{what}, chunks {chunks}")
+    total, exc, where = _feed(LeaderFollowerIntersector, chunks, side, None)
+    mon.count("model_feeds")
+    if exc is not None:
+        mon.violation(f"leader-follower:single-trace-registered:raised:{type(exc).__name__}",
+                      f"{name}, {what}: raised {type(exc).__name__}: {exc}")
+        return
+    mon.check(total == want[name], "leader-follower:single-trace-registered:total",
+              f"{name}, {what}: model reports {total}, the operand presented {want[name]} elements "
+              f"(independent merge of the raw lists)")
 
 
 def _run_lf(case, mon):
